@@ -193,3 +193,37 @@ func zzC07Other(name string, a, b **Object) Output {
 	}
 	return *a
 }
+
+// ZZ_C07_reset: two requests for the same document go through one cold plan
+// cache while a third goroutine resets the cache: every schedule (P forced
+// preemptions) ends with both requests answered as if alone, no goroutine left
+// waiting for the other's build, no data race.
+func ZZ_C07_reset() {
+	q := zzC07Queries[0]
+	bs := zzC07Schema()
+	want := Do(Params{Schema: bs, RequestString: q})
+	schema := zzC07Schema()
+	cache := NewPlanCache(PlanCacheOptions{MaxEntries: 2, Normalize: zzChoice("normalize", 2) == 1})
+	results := make([]*Result, 2)
+	run := func(i int) {
+		pr := cache.Get(&schema, q, "")
+		if pr.Plan != nil {
+			results[i] = ExecutePlan(pr.Plan, ExecuteParams{Schema: schema, Args: pr.SynthArgs})
+		} else {
+			results[i] = &Result{Errors: pr.Errors}
+		}
+	}
+	zzRace(true)
+	zzSched(true, zzParam("P", 1))
+	var wg sync.WaitGroup
+	wg.Add(3)
+	go func() { defer wg.Done(); run(0) }()
+	go func() { defer wg.Done(); run(1) }()
+	go func() { defer wg.Done(); cache.Reset() }()
+	wg.Wait()
+	zzSched(false, 0)
+	zzRace(false)
+	zzAssert(results[0] != nil && results[1] != nil, "a request did not complete")
+	zzAssert(zzSameResult(results[0], want) && zzSameResult(results[1], want), "a response differs from the sequential one")
+	zzCover("end")
+}
